@@ -75,7 +75,8 @@ def call (name : String) (args : List Val) : Out :=
       | some v => .mutate v (.arr i xs.dropLast)
       | none => .any)
   | "pop", _ => .error
-  | "get", [.arr _ xs, .int n] => if n.toInt < 0 then .any else .value (xs.getD n.toInt.toNat .null)
+  -- "If there is no element at the index … it returns null": a negative index has no element
+  | "get", [.arr _ xs, .int n] => if n.toInt < 0 then .value .null else .value (xs.getD n.toInt.toNat .null)
   | "get", [.map _ kvs, k] => if k.isValidKey then .value ((Spec.Assoc.lookup kvs k).getD .null) else .any
   | "get", _ => .error
   | "contains", [.map _ kvs, k] => if k.isValidKey then .value (.bool (Spec.Assoc.lookup kvs k).isSome) else .any
